@@ -50,6 +50,7 @@ type FuncContract struct {
 	LoopMod   map[int][]SExpr
 	CallAsserts []*Clause
 	CallForget  []ForgetSpec
+	Cancellable  bool // effect contract audited for C14: every blocking channel operation can be abandoned on cancellation
 	AllocCounter bool // allocation represented as a counter (scalar monotonicity) instead of a set
 	Inline    bool // expand body at call sites instead of using the contract
 	Safe      bool // generate panic-freedom obligations
@@ -121,7 +122,7 @@ func splitLabel(s string) (string, string) {
 }
 
 var clauseKeywords = map[string]bool{
-	"preserves": true, "alloc-counter": true, "rmul-signs": true, "let": true, "owns": true, "tracks": true, "dynbind": true, "ghost-effect": true, "func": true, "property": true, "requires": true, "ensures": true, "modifies": true,
+	"preserves": true, "alloc-counter": true, "cancellable": true, "rmul-signs": true, "let": true, "owns": true, "tracks": true, "dynbind": true, "ghost-effect": true, "func": true, "property": true, "requires": true, "ensures": true, "modifies": true,
 	"loop": true, "at": true, "inline": true, "safe": true, "trusted": true, "noframe": true,
 	"inloop": true, "holds": true, "pure": true, "ghost": true, "spec": true, "axiom": true,
 	"iface": true, "monitor": true, "confined": true, "lemma": true, "dynpure": true, "note": true,
@@ -405,6 +406,8 @@ func (cs *Contracts) parseFile(file, pkg string) error {
 			cur.CallAsserts = append(cur.CallAsserts, c)
 		case "alloc-counter":
 			cur.AllocCounter = true
+		case "cancellable":
+			cur.Cancellable = true
 		case "inline":
 			cur.Inline = true
 		case "safe":
